@@ -816,6 +816,56 @@ func init() {
 		}
 		return r
 	}
+	// canoto.Append / AppendBytes on a *canoto.Writer: w.B grows by len(v) / by the length varint of v
+	// plus len(v); what was written before stays (the appended bytes themselves are not modelled)
+	growWriter := func(withLen bool) externFn {
+		return func(f *Frame, call *ast.CallExpr, recv Val, args []Val, st *State) []Val {
+			in := f.in
+			p, ok := args[0].(PtrV)
+			if !ok {
+				in.unsupported(call.Pos(), "canoto writer argument %T", args[0])
+			}
+			sv := in.load(st, p.To, f).(StructV)
+			bi := -1
+			for i := 0; i < sv.Typ.NumFields(); i++ {
+				if sv.Typ.Field(i).Name() == "B" {
+					bi = i
+				}
+			}
+			if bi < 0 {
+				in.unsupported(call.Pos(), "canoto.Writer without field B")
+			}
+			old := sv.F[bi].(SliceV)
+			var ln Term
+			switch v := args[1].(type) {
+			case SliceV:
+				ln = v.Len
+			case Sc:
+				ln = App("slen", SInt, v.T)
+			default:
+				in.unsupported(call.Pos(), "canoto append of %T", args[1])
+			}
+			delta := ln
+			if withLen {
+				delta = Add(sizeUint(ln), ln)
+			}
+			reg := in.newCell("wbuf", CRegion, types.Typ[types.Uint8])
+			na := in.D.fresh("wbuf", ArrSort(SInt))
+			in.arrayRangeAxiomSt(na, types.Typ[types.Uint8], st)
+			oc := in.regionContent(st, old.Reg, f)
+			j := Term{S: "j", Sort: SInt}
+			st.assume(Forall([]Term{j}, Implies(And(Le(IntLit(0), j), Lt(j, old.Len)), Eq(Select(na, j), Select(oc, Add(old.Off, j)))), []Term{Select(na, j)}))
+			st.store[reg] = ArrV{T: na}
+			nl := f.nameIt(st, "wlen", Add(old.Len, delta))
+			nf := append([]Val(nil), sv.F...)
+			nf[bi] = SliceV{Reg: reg, Off: IntLit(0), Len: nl, Cap: nl, Nil: TFalse}
+			st.store[p.To] = StructV{Typ: sv.Typ, F: nf}
+			in.note("canoto.Append/AppendBytes: the writer grows by exactly the encoded size; earlier bytes are kept; the appended bytes are not modelled")
+			return nil
+		}
+	}
+	externs["github.com/StephenButtolph/canoto.Append"] = growWriter(false)
+	externs["github.com/StephenButtolph/canoto.AppendBytes"] = growWriter(true)
 	externs["github.com/StephenButtolph/canoto.SizeUint"] = func(f *Frame, call *ast.CallExpr, recv Val, args []Val, st *State) []Val {
 		f.in.note("canoto.SizeUint modelled exactly (varint length)")
 		return []Val{Sc{sizeUint(args[0].(Sc).T)}}
